@@ -166,44 +166,72 @@ ACC_SITES = [
 ]
 
 
-def accumulator_rule(ctx, repo, rule):
-    ctx.rule(rule, "accumulators of the per-step flow code start at zero and only add: every name / attribute that is augmented inside a loop over self.outlinks or self.inlinks in resolve_outflows / balance / outflow is initialised to a zero constant (0, 0.0, np.zeros) on every path and is augmented with += only")
+def _zero_default_container(e):
+    """dict.fromkeys(keys, 0) / defaultdict(float) ... : every entry starts at zero"""
+    if isinstance(e, ast.Call) and isinstance(e.func, ast.Attribute) and e.func.attr == "fromkeys" and len(e.args) == 2:
+        return ast.unparse(e.args[1]) in ("0", "0.0")
+    if isinstance(e, ast.Call) and ast.unparse(e.func) in ("defaultdict", "collections.defaultdict") and e.args:
+        return ast.unparse(e.args[0]) in ("float", "int")
+    return False
+
+
+def accumulator_rule(ctx, repo, rule, sites=None, minimum=12, what="the per-step flow code"):
+    sites = sites or [("model", q) for q in ACC_SITES]
+    ctx.rule(rule, "accumulators of %s start at zero and only add: a name / attribute / entry that is augmented inside a loop but initialised outside it (in %s) is initialised to a zero constant (0, 0.0, np.zeros, a zero-default mapping) and is augmented with += only" % (what, ", ".join(q for m, q in sites)))
     n = 0
-    for q in ACC_SITES:
+    for m, q in sites:
         try:
-            fi = repo.func("model", q)
+            fi = repo.func(m, q)
         except Exception:
+            ctx.fail(rule, "atomica/%s.py" % m, None, "anchor %s.%s not found" % (m, q), stmt_text="acc-anchor:%s" % q)
             continue
-        me = K.self_name(fi)
-        rd = K.rdefs(repo, fi)
         accs = {}
         for l in own_nodes(fi.node):
-            if isinstance(l, ast.For) and ast.unparse(l.iter) in ("%s.outlinks" % me, "%s.inlinks" % me):
-                for s in ast.walk(l):
-                    if isinstance(s, ast.AugAssign):
-                        base = astq.strip_subs(s.target)
-                        key = ast.unparse(base)
-                        if key.startswith(l.target.id + ".") if isinstance(l.target, ast.Name) else False:
-                            continue  # a store into the link itself, not an accumulator
-                        accs.setdefault(key, []).append(s)
-                    elif isinstance(s, ast.Assign) and isinstance(s.targets[0], ast.Name) and isinstance(s.value, ast.BinOp) and astq.is_name(s.value.left, s.targets[0].id):
-                        accs.setdefault(s.targets[0].id, []).append(s)
+            if not isinstance(l, (ast.For, ast.While)):
+                continue
+            lvs = {x.id for x in ast.walk(l.target) if isinstance(x, ast.Name)} if isinstance(l, ast.For) else set()
+            for s in ast.walk(l):
+                if s is l:
+                    continue
+                if isinstance(s, ast.AugAssign):
+                    base = astq.strip_subs(s.target)
+                    root = base
+                    while isinstance(root, ast.Attribute):
+                        root = root.value
+                    if isinstance(root, ast.Name) and root.id in lvs:
+                        continue  # a store into the loop's own item, not an accumulator
+                    key = ast.unparse(base)
+                    if isinstance(l, ast.For) and ast.unparse(l.iter) in (key, key + ".keys()", key + ".items()", key + ".values()", "list(%s)" % key, "list(%s.keys())" % key):
+                        continue  # a per-item update of the container being iterated, not an accumulation
+                    # innermost loop only
+                    if K.enclosing_loops(s) and K.enclosing_loops(s)[0] is not l:
+                        continue
+                    accs.setdefault(key, []).append((s, l))
+                elif isinstance(s, ast.Assign) and len(s.targets) == 1 and isinstance(s.targets[0], ast.Name) and isinstance(s.value, ast.BinOp) and astq.is_name(s.value.left, s.targets[0].id):
+                    if K.enclosing_loops(s) and K.enclosing_loops(s)[0] is l:
+                        accs.setdefault(s.targets[0].id, []).append((s, l))
         for key, augs in accs.items():
-            for s in augs:
+            loops_ = {id(l) for s, l in augs}
+            # initialisations: assignments to the accumulator (or to its container) outside the accumulating loops
+            inits = []
+            first = min(a.lineno for a, l in augs)
+            aug_targets = {ast.unparse(a.target) for a, l in augs if isinstance(a, ast.AugAssign)}
+            for s in own_nodes(fi.node):
+                if isinstance(s, ast.Assign) and len(s.targets) == 1 and not any(s is a for a, l in augs) and s.lineno < first:
+                    tt = ast.unparse(s.targets[0])
+                    if tt == key or tt in aug_targets:
+                        if not any(any(x is s for x in ast.walk(l)) for a, l in augs):
+                            inits.append(s)
+            if not inits:
+                continue  # defined and augmented inside the same iteration: a per-item temporary, not an accumulator
+            for s, l in augs:
                 n += 1
                 op = s.op if isinstance(s, ast.AugAssign) else s.value.op
-                ctx.check(isinstance(op, ast.Add), rule, fi, s, "`%s` adds" % norm(s)[:50], "`%s` does not add to the accumulator `%s`: the total it stands for (requested outflow, cached outflow, junction inflow) gets the wrong sign or scale, so stocks no longer change by the recorded flows" % (norm(s)[:60], key))
-            # initial value: every definition of the accumulator in the function that is not itself an accumulation must be a zero
-            inits = []
-            for s in own_nodes(fi.node):
-                if isinstance(s, ast.Assign) and len(s.targets) == 1 and ast.unparse(s.targets[0]) == key and s not in augs:
-                    inits.append(s)
-            ok = bool(inits) and all(is_zero_init(s.value) for s in inits)
-            first = min(a.lineno for a in augs)
-            ok = ok and any(s.lineno < first for s in inits)
+                ctx.check(isinstance(op, ast.Add), rule, fi, s, "`%s` adds" % norm(s)[:50], "`%s` does not add to the accumulator `%s`: the total it stands for gets the wrong sign or scale" % (norm(s)[:60], key))
+            ok = all(is_zero_init(s.value) or _zero_default_container(s.value) for s in inits)
             n += 1
-            ctx.check(ok, rule, fi, inits[0] if inits else augs[0], "accumulator `%s` starts at zero" % key, "the accumulator `%s` in %s is not initialised to zero before it is added to (%s): every step then moves or removes a constant extra amount" % (key, q, ", ".join(norm(s) for s in inits) or "no initialisation"), stmt_text="acc-init:%s:%s" % (q, key))
-    ctx.require(n >= 12, "%s: fewer accumulator obligations (%d) than confirmed (12)" % (rule, n))
+            ctx.check(ok, rule, fi, inits[0], "accumulator `%s` starts at zero" % key, "the accumulator `%s` in %s is not initialised to zero before it is added to (%s): the total is off by a constant every time it is computed" % (key, q, ", ".join(norm(s)[:40] for s in inits)), stmt_text="acc-init:%s:%s" % (q, key))
+    ctx.require(n >= minimum, "%s: fewer accumulator obligations (%d) than confirmed (%d)" % (rule, n, minimum))
 
 
 def must_store_rule(ctx, repo, rule):
@@ -303,3 +331,45 @@ def link_registration_rule(ctx, repo, rule):
     g = [(ast.unparse(t), pol) for t, pol in guards_of(c)]
     okg = g in ([("%s is not None" % fi.params[2], True)], [("%s.parameter is not None" % new, True)], [("%s is None" % fi.params[2], False)])
     ctx.check(bool(made) and okg, rule, fi, enclosing_stmt(c), "the new link is appended to parameter.links iff it has a parameter", "`%s` is executed under %s (expected: exactly when the parameter is not None) or does not register the link just created" % (norm(enclosing_stmt(c)), g))
+
+
+def _foreach_call(fi, method, arg_txt):
+    """
+    Does ``fi`` call  <c>.<method>(<arg>)  for every compartment of every population, unconditionally?
+    -> (ok, call stmt or None, why)
+    """
+    me = K.self_name(fi)
+    calls = [c for c in own_nodes(fi.node) if isinstance(c, ast.Call) and isinstance(c.func, ast.Attribute) and c.func.attr == method and isinstance(c.func.value, ast.Name)]
+    for c in calls:
+        cv = c.func.value.id
+        loops = K.enclosing_loops(c)
+        inner = [l for l in loops if isinstance(l.target, ast.Name) and l.target.id == cv]
+        if not inner:
+            continue
+        it = inner[0].iter
+        if not (isinstance(it, ast.Attribute) and it.attr == "comps" and isinstance(it.value, ast.Name)):
+            return False, enclosing_stmt(c), "the loop ranges over `%s`, not over a population's comps" % ast.unparse(it)
+        pv = it.value.id
+        outer = [l for l in loops if isinstance(l.target, ast.Name) and l.target.id == pv]
+        if not outer or ast.unparse(outer[0].iter) != "%s.pops" % me:
+            return False, enclosing_stmt(c), "the population loop does not range over %s.pops" % me
+        g = [ast.unparse(t) for t, pol in guards_of(c)]
+        if g:
+            return False, enclosing_stmt(c), "the call is conditional on %s" % g[:2]
+        if [ast.unparse(a) for a in c.args] != [arg_txt] or c.keywords:
+            return False, enclosing_stmt(c), "the call passes (%s), expected (%s)" % (", ".join(ast.unparse(a) for a in c.args), arg_txt)
+        return True, enclosing_stmt(c), ""
+    return False, None, "no call <comp>.%s(...) in a loop over every compartment" % method
+
+
+def step_wiring_rule(ctx, repo, rule):
+    ctx.rule(rule, "the step touches every compartment: Model.update_comps calls comp.update(ti) and Model.update_links calls comp.resolve_outflows(ti) for every compartment of every population, unconditionally, with ti = self._t_index")
+    for q, method in (("Model.update_comps", "update"), ("Model.update_links", "resolve_outflows")):
+        fi = repo.func("model", q)
+        me = K.self_name(fi)
+        tis = [s for s in own_nodes(fi.node) if isinstance(s, ast.Assign) and isinstance(s.targets[0], ast.Name) and ast.unparse(s.value) == "%s._t_index" % me]
+        if not tis:
+            ctx.fail(rule, fi, fi.node, "%s does not take its index from self._t_index" % q, stmt_text="step-index:%s" % q)
+            continue
+        ok, st, why = _foreach_call(fi, method, tis[0].targets[0].id)
+        ctx.check(ok, rule, fi, st if st is not None else fi.node, "%s: %s(ti) for every compartment of every population" % (q, method), "%s: %s - compartments left out keep their preallocated NaN (or stale flows), so people vanish from the trajectory" % (q, why), stmt_text="foreach:%s.%s" % (q, method))
